@@ -35,7 +35,8 @@ Definition obs_same_dict (x : c09_case) : bool :=
 
 def guard_jobs(ck):
     r = ck.rng
-    jobs = [{"id": 0, "seed": r.randrange(1 << 30), "model": {"c08": "any_attrs"}}]
+    jobs = [{"id": 0, "seed": r.randrange(1 << 30), "model": {"c08": "any_attrs"}},
+            {"id": 1, "seed": r.randrange(1 << 30), "model": {"c08": "scoped_qname"}, "n": ck.n(16, 150)}]
     for _ in range(ck.n(30, 300)):
         k = r.random()
         sl = ["F1"] if k < 0.35 else (["F1", "F2"] if k < 0.6 else ["F1", "F2", "F3"])
@@ -106,6 +107,12 @@ def guard_check(ck, fut):
                 cls = "rewrite-prefix-renaming-any-attribute" if i in badsets["model_same"] else "rewrite-prefix-renaming-unexplained"
                 ck.failure(cls, f"renaming / dropping a namespace prefix changes the parsed object: {c['doc']!r} vs {c['doc2']!r}: "
                                 f"{c['summary']['a']['value']} vs {c['summary']['b']['value']}", rp)
+            continue
+        if kind == "rename_qname":
+            # QName-typed content re-spelled with the renamed prefixes: no event-level theorem (C09_qname_respelling_partial); oracle
+            if not same:
+                ck.failure("rewrite-rename_qname", f"renaming every declared prefix (declarations and QName / xsi:type uses together) changes "
+                                                   f"the parsed object: {c['doc'][:300]!r} vs {c['doc2'][:300]!r}: {c['summary']}", rp)
             continue
         g = i not in badsets[guard_of[kind]]
         st["guard_true"] += g
